@@ -110,6 +110,32 @@ def _is_file_read(name):
         name.endswith(('fs::read_to_string', 'fs::read')) or (last in ('read_to_string', 'read_to_end') and 'io::Read' in name)
 
 
+def _is_id_test(term):
+    """an equality test between the reference id of the chrony reply (a `.ref_id` read of the query result) and something
+    that is not derived from the reply: the PHC match test, whatever the configured side is called"""
+    from .poller_model import mentions_query
+    if not (term[0] == 't' and term[1] in ('Eq', 'eq', 'Ne', 'ne') and len(term[2]) == 2):
+        return False
+    a, b = term[2]
+    if mentions_query(a) == mentions_query(b):
+        return False
+    rep = a if mentions_query(a) else b
+    return fmt(rep).rstrip(')').endswith('ref_id')
+
+
+def _cfg_of(v):
+    """the Option the configured side of the match test is read from: X in `as(X, Some).0 ... .field`"""
+    for x in psi.walk(v):
+        if x[0] == 't' and x[1] == 'as' and len(x[2]) == 2 and x[2][1] == 'Some':
+            return x[2][0]
+    return None
+
+
+def _cfg_key(v):
+    """the configuration term modulo borrows (`&x`, `*x`)"""
+    return fmt(v).replace('*', '').replace('&', '').replace('(', '').replace(')', '')
+
+
 def run(ctx, chk):
     fb = ctx.facts()
     chk.explanation = ('P1: the poller\'s initial instant is now - c, c >= 5 s. P2: is_within_grace_period() is '
@@ -211,6 +237,17 @@ def run(ctx, chk):
     # in the poller's code can panic (the outcome would never be sent) or does part of the work
     common.log_hazard_obligations(fb, chk, 'C13.P11', [pm.body], 'the chrony polling thread')
     rows = {}
+    # the PHC configuration: the Option whose payload is compared with the reply's reference id on some path of the loop
+    cfg_keys = set()
+    for info in pm.infos:
+        for term, _, _, _ in info['path'].conds:
+            if _is_id_test(term):
+                a, b2 = term[2]
+                x = _cfg_of(b2 if mentions_query(a) else a)
+                if x is not None:
+                    cfg_keys.add(_cfg_key(x))
+    chk.ob('C13.P5', 'phc:configuration-is-one-option', len(cfg_keys) == 1, pm.body.where(0),
+           'the reference id of a report is compared with a field of %s' % (sorted(cfg_keys) or 'NOTHING'))
     for info in pm.infos:
         if info['query'] is None:
             continue
@@ -238,16 +275,17 @@ def run(ctx, chk):
         for term, op, val, _ in p.conds:
             if term == T('discr', qterm):
                 reply = 'tracking' if ((op == '==' and val == 1) or (op == '!=' and 0 in val)) else 'none'
-            ft = fmt(term)
-            if term[0] == 't' and term[1] == 'discr' and ft.endswith('discr(phc_info)'):
+            if term[0] == 't' and term[1] == 'discr' and _cfg_key(term[2][0]) in cfg_keys:
                 phc_cfg = (op == '==' and val == 1) or (op == '!=' and 0 in val)
-            if term[0] == 't' and term[1] in ('Eq', 'eq', 'Ne', 'ne') and 'refid' in ft and 'ref_id' in ft:
+            if _is_id_test(term):
                 truth = (op == '!=' and set(val) == {0}) or (op == '==' and val == 1)
                 ids_equal = truth if term[1] in ('Eq', 'eq') else not truth
                 # P5: both sides are the configured and the reported id
                 a, b2 = term[2]
+                rep, cfg = (a, b2) if mentions_query(a) else (b2, a)
                 sides = sorted([fmt(a), fmt(b2)])
-                good = any('phc_info' in s and s.endswith('refid') for s in sides) and any(s_.endswith('ref_id') for s_ in sides) and (mentions_query(a) or mentions_query(b2))
+                good = fmt(rep).endswith('ref_id') and _cfg_of(cfg) is not None and not mentions_query(cfg) and \
+                    not any(x[0] == 't' and x[1] == 'call' for x in psi.walk(cfg))
                 chk.ob('C13.P5', 'phc:match-atom', good and term[1] in ('Eq', 'eq'), p.where[2],
                        'PHC match test is %s(%s, %s)' % (term[1], sides[0][-40:], sides[1][-40:]))
         # sysfs read outcome: any Err discriminant of an io call between query and send, or the Ok data path
